@@ -29,9 +29,17 @@ pub(crate) struct Instant {
 }
 
 impl Instant {
+    #[cfg(not(btdht_verif))]
     pub fn now() -> Self {
         Self {
             std_instant: StdInstant::now().checked_add(OFFSET).unwrap(),
+        }
+    }
+
+    #[cfg(btdht_verif)]
+    pub fn now() -> Self {
+        Self {
+            std_instant: verif_clock::now_std().checked_add(OFFSET).unwrap(),
         }
     }
 
@@ -76,6 +84,47 @@ impl fmt::Debug for Instant {
             instant.fmt(f)
         } else {
             f.write_fmt(format_args!("({:?} - one week)", self.std_instant))
+        }
+    }
+}
+
+/// Verification hook (guarded by `--cfg btdht_verif`): a virtual clock. In manual mode the time is
+/// a process-wide counter of nanoseconds set by the harness; in tokio mode it follows
+/// `tokio::time::Instant` so that `tokio::time::pause()/advance()` also govern node ageing, token
+/// rotation and peer expiry.
+#[cfg(btdht_verif)]
+pub mod verif_clock {
+    use std::sync::atomic::{AtomicBool, AtomicU64, Ordering};
+    use std::sync::OnceLock;
+    use std::time::{Duration, Instant as StdInstant};
+
+    static TOKIO_MODE: AtomicBool = AtomicBool::new(false);
+    static MANUAL_NS: AtomicU64 = AtomicU64::new(0);
+    static BASE: OnceLock<(StdInstant, tokio::time::Instant)> = OnceLock::new();
+
+    fn base() -> &'static (StdInstant, tokio::time::Instant) {
+        BASE.get_or_init(|| (StdInstant::now(), tokio::time::Instant::now()))
+    }
+
+    /// Switch to manual mode and set the current time (nanoseconds since the base).
+    pub fn set_manual_ns(ns: u64) {
+        base();
+        TOKIO_MODE.store(false, Ordering::SeqCst);
+        MANUAL_NS.store(ns, Ordering::SeqCst);
+    }
+
+    /// Follow tokio's (possibly paused) clock.
+    pub fn use_tokio() {
+        base();
+        TOKIO_MODE.store(true, Ordering::SeqCst);
+    }
+
+    pub(super) fn now_std() -> StdInstant {
+        let (std_base, tokio_base) = *base();
+        if TOKIO_MODE.load(Ordering::SeqCst) {
+            std_base + tokio::time::Instant::now().saturating_duration_since(tokio_base)
+        } else {
+            std_base + Duration::from_nanos(MANUAL_NS.load(Ordering::SeqCst))
         }
     }
 }
